@@ -40,6 +40,7 @@ type CaseIn struct {
 	FaultPos  int      `json:"fault_pos"`
 	FaultKind string   `json:"fault_kind"`
 	PrevDiff  bool     `json:"prev_diff,omitempty"` // status file already says compare DIFF
+	PrevUp    bool     `json:"prev_up,omitempty"`   // status file already says compare UPTODATE (policy p0)
 	// time-out (seconds) written to the configuration of the program under test; 0 = 1 second.
 	// The parallel phase uses 1 second; a case that disagrees is run again alone with a longer one.
 	TimeoutS int `json:"timeout_s,omitempty"`
@@ -64,7 +65,8 @@ type CaseOut struct {
 	Log        string   `json:"log"`
 	ChangeLog  string   `json:"change_log"`
 	CmpLog     string   `json:"cmp_log"`
-	ScpLog     []string `json:"scp_log,omitempty"` // Linux with real scp: file:result in order
+	Conns      []int    `json:"conns,omitempty"`   // HTTP: per request the number of the TCP connection it arrived on
+	ScpLog     []string `json:"scp_log,omitempty"` // Linux with real scp: file:result in order (written by the stand-in for scp)
 	ScpRouting bool     `json:"scp_routing"`
 	ScpTables  bool     `json:"scp_tables"`
 	WallMs     int64    `json:"wall_ms"`
@@ -118,6 +120,10 @@ func runCase(c CaseIn) CaseOut {
 	os.Setenv("HOME", work)
 	os.Setenv("TEST_TIME", "2024-Sep-29 16:19:50")
 	os.Unsetenv("LANG")
+	if c.PrevUp {
+		os.WriteFile(filepath.Join(work, "status", devName), []byte(
+			`{"approve":{"result":"OK","policy":"p0","time":1727000000},"compare":{"result":"UPTODATE","policy":"p0","time":1727000001}}`), 0644)
+	}
 	if c.PrevDiff {
 		os.WriteFile(filepath.Join(work, "status", devName), []byte(
 			`{"approve":{"result":"OK","policy":"p0","time":1727000000},"compare":{"result":"DIFF","policy":"p0","time":1727000001}}`), 0644)
@@ -176,6 +182,7 @@ func runCase(c CaseIn) CaseOut {
 	if hs != nil {
 		hs.close()
 		out.Lines, out.FaultAt = hs.transcript()
+		out.Conns = hs.connIDs()
 	} else {
 		// the simulator is a child of the expect library and reads asynchronously: tell it
 		// that the program under test is done and wait for its end mark
